@@ -172,6 +172,15 @@ func c14Reports(resp c07Resp) (string, []string, bool) {
 }
 
 func c14ChainCase(s *c14Set, class string) Case {
+	before := c07NoAnswer
+	c := c14ChainCaseInner(s, class)
+	if len(c.KF) > 0 {
+		c07NoAnswer = before // a known hang does not count towards giving up
+	}
+	return c
+}
+
+func c14ChainCaseInner(s *c14Set, class string) Case {
 	resp, over := c07Compile(s.Files, s.Root, "compile")
 	c := Case{Class: class, Key: fmt.Sprint(s.Files), Nontrivial: len(s.Files) >= 2}
 	c.Input = map[string]any{"root": s.Root, "files": s.Files}
@@ -758,14 +767,23 @@ func c14Gen(r *Rng, tier string, n int) []Case {
 	}()
 	var out []Case
 	for _, top := range c14Tops {
+		if c07GiveUp() {
+			break
+		}
 		for _, imp := range c14ImpTexts {
 			out = append(out, c14ResolveCase(top, imp))
 		}
 	}
 	for _, s := range c14ChainCorpus() {
+		if c07GiveUp() {
+			break
+		}
 		out = append(out, c14ChainCase(s, "chain-corpus"))
 	}
 	for _, ic := range c14InlineCorpus {
+		if c07GiveUp() {
+			break
+		}
 		a, _ := c07Compile(ic.files, "index.d2", "compile")
 		b, _ := c07Compile(map[string]string{"index.d2": ic.twin}, "index.d2", "compile")
 		c := Case{Class: "inline-corpus", Nontrivial: true, Key: fmt.Sprint(ic.files)}
@@ -792,6 +810,9 @@ func c14Gen(r *Rng, tier string, n int) []Case {
 		out = append(out, c)
 	}
 	for len(out) < n {
+		if c07GiveUp() {
+			break
+		}
 		if r.Chance(0.5) {
 			out = append(out, c14ChainCase(c14GenChainSet(r), "chain-random"))
 		} else if cs, ok := c14InlineCase(r); ok {
